@@ -42,6 +42,10 @@ def scenario_script(name):
         # the end event finishes exactly at byte 4096 of the stream; the markers of the first
         # flush are written by the second one: 8 + 28 + 335*12 + 2*14 + 12 = 4096
         body = ["emitraw OB. -"] * 335 + ["emitraw OB. 0102"] * 2 + ["emitraw OHe -", "flush", "flush"]
+    elif name.startswith("attr"):
+        # the metadata is rewritten in the middle of the run (ovni_attr_flush truncates and rewrites stream.json)
+        body = ["emitraw OB. -", "flush", "attr_str user.phase second", "attr_flush", "emitraw OB. -",
+                "attr_double user.n 3", "attr_flush", "emitraw OHe -", "flush"]
     elif name.startswith("bigmeta"):
         # metadata larger than one stdio buffer (a thread that registers 300 CPUs): stream.json is written
         # with several write() calls
@@ -358,9 +362,9 @@ def main(pid, tier):
             ck.violation("RtFs model violates %s" % r.violated, {"tlc.out": r.out[-20000:]})
     ck.phase("tlc")
     names = ["small-direct", "small-tmp", "boundary-tmp", "one-direct", "one-tmp", "boundary-direct", "bigmeta-tmp",
-             "small-tmp-pre", "one-direct-pre"]
+             "small-tmp-pre", "one-direct-pre", "attr-tmp"]
     if tier == "thorough":
-        names += ["big-tmp", "big-direct", "bigmeta-direct"]
+        names += ["big-tmp", "big-direct", "bigmeta-direct", "attr-direct"]
     execs = []
     owners = []
     for name in names:
